@@ -136,9 +136,45 @@ fn bigint_cases(out: &mut Vec<(String, bool, String)>) {
     w!(u128, "u128"); w!(i128, "i128"); w!(usize, "usize"); w!(isize, "isize");
 }
 
+/// the stand-alone signature-message helper: for every AGG_SIG flavour and coin amounts at every length boundary of the
+/// canonical form, the text appended to the message is the coin's attributes - the amount in canonical form - and the
+/// flavour's domain constant, built here from their definitions
+fn aggsig_suffix_cases(out: &mut Vec<(String, bool, String)>) {
+    use chia_consensus::consensus_constants::TEST_CONSTANTS as K;
+    use chia_consensus::make_aggsig_final_message::make_aggsig_final_message;
+    use chia_consensus::owned_conditions::OwnedSpendConditions;
+    let parent = [0x11u8; 32]; let ph = [0x22u8; 32];
+    let mut amounts: Vec<u64> = vec![0, 1];
+    for bits in [7u32, 8, 15, 16, 23, 24, 31, 32, 39, 40, 47, 48, 55, 56, 63] { let p = 1u64 << bits; amounts.extend([p - 1, p, p + 1]); }
+    amounts.push(u64::MAX - 1); amounts.push(u64::MAX);
+    for amount in amounts {
+        let am = canon(&BigInt::from(amount));
+        let coin_id: [u8; 32] = { let mut h = chia_sha2::Sha256::new(); h.update(parent); h.update(ph); h.update(&am); h.finalize() };
+        let spend = OwnedSpendConditions { parent_id: parent.into(), puzzle_hash: ph.into(), coin_amount: amount, coin_id: coin_id.into(), ..Default::default() };
+        for op in 43u16..=50 {
+            let mut want = b"msg".to_vec();
+            match op {
+                43 => { want.extend(parent); want.extend(K.agg_sig_parent_additional_data.as_slice()); }
+                44 => { want.extend(ph); want.extend(K.agg_sig_puzzle_additional_data.as_slice()); }
+                45 => { want.extend(&am); want.extend(K.agg_sig_amount_additional_data.as_slice()); }
+                46 => { want.extend(ph); want.extend(&am); want.extend(K.agg_sig_puzzle_amount_additional_data.as_slice()); }
+                47 => { want.extend(parent); want.extend(&am); want.extend(K.agg_sig_parent_amount_additional_data.as_slice()); }
+                48 => { want.extend(parent); want.extend(ph); want.extend(K.agg_sig_parent_puzzle_additional_data.as_slice()); }
+                49 => {}
+                _ => { want.extend(coin_id); want.extend(K.agg_sig_me_additional_data.as_slice()); }
+            }
+            let mut got = b"msg".to_vec();
+            make_aggsig_final_message(op, &mut got, &spend, &K);
+            out.push((format!("aggsig-message/{op}/{amount:#x}"), got == want,
+                format!("make_aggsig_final_message(opcode {op}) for a coin of {amount} mojos = {}; by definition {}", hex::encode(&got), hex::encode(&want))));
+        }
+    }
+}
+
 fn cases() -> Vec<(String, bool, String)> {
     let mut out: Vec<(String, bool, String)> = vec![];
     bigint_cases(&mut out);
+    aggsig_suffix_cases(&mut out);
     width!(out, u8, "u8"); width!(out, i8, "i8"); width!(out, u16, "u16"); width!(out, i16, "i16");
     width!(out, u32, "u32"); width!(out, i32, "i32"); width!(out, u64, "u64"); width!(out, i64, "i64");
     width!(out, u128, "u128"); width!(out, i128, "i128"); width!(out, usize, "usize"); width!(out, isize, "isize");
